@@ -295,12 +295,14 @@ func (fv *FuncVerifier) assumeTyped(st *State, v Term, t types.Type) {
 		st.assume(mk(sortBool, "(>= %s 0)", slLen(v).S))
 		// a slice fits in the address space: len * sizeof(elem) <= MaxInt64
 		if et := elemType(t); et != nil {
-			if sz := safeSizeof(fv.subst(et)); sz > 1 {
-				lim := new(big.Int).Div(new(big.Int).Sub(new(big.Int).Lsh(big.NewInt(1), 63), big.NewInt(1)), big.NewInt(sz))
-				st.assume(mk(sortBool, "(<= %s %s)", slLen(v).S, lim.String()))
-			} else {
-				st.assume(mk(sortBool, "(<= %s 9223372036854775807)", slLen(v).S))
+			// a slice fits in the address space: at most 2^56 bytes (x86-64/arm64 virtual addresses are <= 57 bits)
+			sz := safeSizeof(fv.subst(et))
+			if sz < 1 {
+				sz = 1
 			}
+			lim := new(big.Int).Div(new(big.Int).Lsh(big.NewInt(1), 56), big.NewInt(sz))
+			st.assume(mk(sortBool, "(<= %s %s)", slLen(v).S, lim.String()))
+			fv.u.note("slice lengths are bounded by the address space (len*sizeof(elem) <= 2^56)")
 		}
 	case KStruct:
 		if stt, ok := t.Underlying().(*types.Struct); ok {
